@@ -2,6 +2,6 @@
 # usage: tools/seed_try.sh <seed-name> <PROP> [quick|thorough]  -- apply a stored seed to /repo, run one check, revert
 N="$1"; P="$2"; T="${3:-quick}"
 git -C /repo apply "/verif/seeded/$N/patch.diff" || exit 2
-/verif/check "$P" "$T" 2>&1 | grep -E "VIOLATION|key:|HELD|KNOWN|error" | head -8 | cut -c1-260
+VERIF_WALL_CAP=${VERIF_WALL_CAP:-900} /verif/check "$P" "$T" 2>&1 | grep -E "VIOLATION|key:|HELD|KNOWN|error|MACHINERY" | head -8 | cut -c1-260
 git -C /repo checkout -- .
 git -C /repo status --short | grep -v benches/files
